@@ -202,7 +202,8 @@ def run(res, tier, seed, shard, nshards):
                     for variant in ("spurious", "then-gap"):
                         k += 1
                         if (k + ji) % nshards == shard:
-                            one(res, W, st, call, list(range(1, n)), None, None, (name, "eagain-" + variant), eagain=(pos, variant))
+                            # every third run in a process that already holds more than a thousand descriptors
+                            one(res, W, st, call, list(range(1, n)), None, None, (name, "eagain-" + variant), eagain=(pos, variant), high_fd=(k % 3 == 0))
             elif job[0] == "headcuts":
                 _, name, st, call = job
                 # whole stream = response (approx 129 bytes) + frames; positions are enumerated inside `one`
@@ -248,7 +249,7 @@ def run(res, tier, seed, shard, nshards):
 _pred_cache = {}
 
 
-def one(res, W, stream, call, cuts, tplan, head_cuts, tag, eagain=None, pauses=False, tls=False):
+def one(res, W, stream, call, cuts, tplan, head_cuts, tag, eagain=None, pauses=False, tls=False, high_fd=False):
     name, cf = call
     key = (stream, call)
     if key not in _pred_cache:
@@ -281,19 +282,25 @@ def one(res, W, stream, call, cuts, tplan, head_cuts, tag, eagain=None, pauses=F
         res.count("segmentations_run")
     else:
         res.count("head_cut_runs")
-    obs = H.run_recv_script(stream, script, segs=segs, ending="eof", head_cuts=head_cuts, timeout=5, nonblocking=pauses, tls=tls)
+    if high_fd:
+        net.SimSocket.fd_base = 1100
+        res.count("runs_with_descriptor_numbers_above_1024")
+    try:
+        obs = H.run_recv_script(stream, script, segs=segs, ending="eof", head_cuts=head_cuts, timeout=5, nonblocking=pauses, tls=tls)
+    finally:
+        net.SimSocket.fd_base = 10
     if tls:
         res.count("runs_on_tls_transport")
     if pauses:
         res.count("nonblocking_runs")
         res.count("wouldblocks_observed", obs["wouldblocks"])
     issues, judged, unj = M.compare(pred, obs)
-    res.case((stream, call, tuple(cuts or ()), tuple(sorted((tplan or {}).items())), tuple(head_cuts or ()), eagain, pauses, tls),
+    res.case((stream, call, tuple(cuts or ()), tuple(sorted((tplan or {}).items())), tuple(head_cuts or ()), eagain, pauses, tls, high_fd),
              nontrivial=bool(cuts or tplan or head_cuts))
     res.count("timeouts_injected", ntimeouts)
     res.count("timeouts_observed", obs["timeouts"])
     res.count("kind:" + tag[1])
-    case = {"tag": tag, "stream": stream, "call": call, "cuts": cuts, "timeout_plan": tplan, "head_cuts": head_cuts, "eagain": eagain, "tls": tls}
+    case = {"tag": tag, "stream": stream, "call": call, "cuts": cuts, "timeout_plan": tplan, "head_cuts": head_cuts, "eagain": eagain, "tls": tls, "high_fd": high_fd}
     for kind, detail, fields in issues:
         res.violation("segmentation-dependent:" + kind, f"{tag}: {detail}", case, seg_kind=tag[1], **fields)
     if ntimeouts != obs["timeouts"] and not issues:
